@@ -52,6 +52,7 @@ def run(ctx):
     rnd = random.Random(ctx.seed * 4099 + 5)
     scs = gen(rnd, 300 if thorough else 22, 3)
     scs += logix_rw.redownload_sessions(rnd, 40 if thorough else 8, prefix="uprd")        # a second upload after a program download
+    scs += logix_rw.redownload_sessions(rnd, 12 if thorough else 3, prefix="upfd", failing=True)
     results = se.run_all(ctx, scs, "c05", shard_traces=6)
     ctx.traces = len(results)
     se.report(ctx, results, lambda r, clause, ev: {"family": r["sc"]["family"], "fw": r["sc"]["target"]["identity"]["rev_major"], "api": ev.get("api", ev.get("k", ""))})
